@@ -252,3 +252,48 @@ Proof.
   intros He Hp. destruct e; simpl; try contradiction;
     rewrite ?(existsb_perm is_allow _ _ Hp), ?(existsb_perm is_deny _ _ Hp); reflexivity.
 Qed.
+
+(* ---------- non-matching rules can be inserted or deleted freely (C05, C19) ---------- *)
+Definition is_nomatch (o : outcome) : bool := match o with NoMatch => true | _ => false end.
+Definition no_bad (outs : list outcome) : bool := forallb (fun o => negb (is_bad o)) outs.
+
+Lemma existsb_drop_nomatch (f : outcome -> bool) : f NoMatch = false -> forall outs,
+  existsb f (filter (fun o => negb (is_nomatch o)) outs) = existsb f outs.
+Proof.
+  intros Hf. induction outs as [|o outs IH]; [reflexivity|].
+  destruct o as [|r| |]; cbn [filter is_nomatch negb existsb]; rewrite ?IH, ?Hf; reflexivity.
+Qed.
+
+Lemma first_decisive_drop_nomatch : forall outs,
+  first_decisive (filter (fun o => negb (is_nomatch o)) outs) = first_decisive outs.
+Proof.
+  induction outs as [|o outs IH]; [reflexivity|].
+  destruct o as [|[]| |]; cbn [filter is_nomatch negb first_decisive]; rewrite ?IH; reflexivity.
+Qed.
+
+Lemma spec_decision_drop_nomatch (e : effector) : forall outs,
+  spec_decision e (filter (fun o => negb (is_nomatch o)) outs) = spec_decision e outs.
+Proof.
+  intro outs. destruct e; unfold spec_decision;
+    rewrite ?(existsb_drop_nomatch is_allow eq_refl), ?(existsb_drop_nomatch is_deny eq_refl),
+            ?first_decisive_drop_nomatch; reflexivity.
+Qed.
+
+Lemma no_bad_no_error (e : effector) : forall outs, no_bad outs = true -> error_before_decision e outs = None.
+Proof.
+  induction outs as [|o outs IH]; intro H; [reflexivity|].
+  simpl in H. apply andb_true_iff in H. destruct H as [Ho H].
+  destruct o as [|r| |]; try discriminate; simpl.
+  - destruct (deciding e NoMatch); [reflexivity|apply IH; exact H].
+  - destruct (deciding e (Match r)); [reflexivity|apply IH; exact H].
+Qed.
+
+(* with a non-matching empty rule, the decision on ANY error-free outcome list (empty or not) is the spec *)
+Theorem decision_is_spec_total (e : effector) (outs : list outcome) :
+  no_bad outs = true ->
+  exists ex, enforce_ex_ref e on outs false = Ok (spec_decision e outs, ex).
+Proof.
+  intro H. destruct outs as [|o outs].
+  - rewrite enforce_ex_ref_empty. exists None. destruct e; reflexivity.
+  - rewrite enforce_ex_ref_char by discriminate. rewrite (no_bad_no_error e _ H). eauto.
+Qed.
